@@ -654,4 +654,109 @@ example : let H := [Ev.connect 0, .msg 0 .init, .msg 0 (.peerUp 0 false true), .
       .msg 0 (.routeMon 0 tok1 (.ok 7 [⟨⟨.v4, 8, 10⟩, .unicast⟩] []))]
     (run asWritten exK H).rib.entry false p24 3 = some (.withdrawn, 5) := by decide
 
+/-! ## Connection loss and reconnect: C02 / C03 for every history of connects, disconnects and reconnects -/
+
+/-- **C02 over BMP, connection loss and Termination, every history.** For every BMP history — any number of
+    routers connecting, losing their connection without a Termination message, terminating, reconnecting — whose
+    session ends are tidy (the epilogue's `ids_for_parent(router id)` names no peer that is up on another
+    connection, and contains the session's own up peers): for every SAFI table, prefix and ingress id, the stored
+    record and the marker are the fold of C01's per-event specification over the **wanted** RIB history `want`: route
+    data of up peers, and at every session end one withdrawal of *exactly the ids of the peers that were up on that
+    session*. What the code names beyond those (peers that went down earlier, peers of earlier connections of the
+    router) is already withdrawn. -/
+theorem PipeBmp_C02_loss_exact (v : Variant) (K : Nat → Hdr → Key) (H : History) (hok : H.all (Ev.ok v.bmp) = true)
+    (ht : tidyFrom K Track.init H = true) (mc : Bool) (p : Rib.Prefix) (m : Mui) :
+    (run v K H).rib.abs mc p m = Rib.specRun v.rib mc p m (want K H) := by
+  rw [PipeBmp_C01_refinement v K H hok mc p m]
+  exact settle_run v.rib mc p m K H Track.init ⟨none, false⟩ (Track.Inv_init K) (Settled_init v.rib m _) ht
+
+/-- … hence what a query reports for the key. -/
+theorem PipeBmp_C02_loss_entry (v : Variant) (K : Nat → Hdr → Key) (H : History) (hok : H.all (Ev.ok v.bmp) = true)
+    (ht : tidyFrom K Track.init H = true) (mc : Bool) (p : Rib.Prefix) (m : Mui) :
+    (run v K H).rib.entry mc p m = (Rib.specRun v.rib mc p m (want K H)).entry := by
+  rw [Rib.Rib.entry_eq_abs, PipeBmp_C02_loss_exact v K H hok ht]
+
+/-- Two routers (one with two peers); router 0 loses its connection while a peer of it is down, reconnects, its
+    peers come back under their old ids and announce again; router 1 terminates and reconnects. -/
+def lossH : History := [.connect 0, .msg 0 .init, .msg 0 (.peerUp 0 false true), .msg 0 (.peerUp 1 false true),
+  .msg 0 (.routeMon 0 tok1 (ann24 5)), .msg 0 (.routeMon 1 tok1 (ann24 6)),
+  .connect 1, .msg 1 .init, .msg 1 (.peerUp 0 false true), .msg 1 (.routeMon 0 tok1 (ann24 7)),
+  .msg 0 (.peerDown 1), .disconnect 0, .msg 0 (.routeMon 0 tok1 (ann24 8)),
+  .connect 0, .msg 2 .init, .msg 2 (.peerUp 0 false true), .msg 2 (.routeMon 0 tok1 (ann24 9)),
+  .msg 1 .term, .connect 1, .msg 3 .init, .msg 3 (.peerUp 0 false true), .disconnect 2, .disconnect 2]
+/-- Key classes that depend on the router (100/200) and the header only. -/
+def lossK : Nat → Hdr → Key := fun i h => 100 * (i % 2 + 1) + h
+
+-- the guard holds for it, the two RIB histories differ (the epilogue names ids 3 and 4, the property id 3), and
+-- router 1's route is untouched by router 0's loss
+example : lossH.all (Ev.ok Bmp.asWritten) = true ∧ tidyFrom lossK Track.init lossH = true ∧
+    want lossK lossH = [.upd 3 (ann24 5), .upd 4 (ann24 6), .upd 6 (ann24 7), .down 4, .downBulk [3], .upd 3 (ann24 9),
+      .downBulk [6], .downBulk [3]] ∧
+    trace lossK lossH = [.upd 3 (ann24 5), .upd 4 (ann24 6), .upd 6 (ann24 7), .down 4, .downBulk [3, 4], .upd 3 (ann24 9),
+      .downBulk [6], .downBulk [6], .downBulk [3, 4]] ∧
+    (run asWritten lossK (lossH.take 13)).rib.query p24 = [⟨3, .withdrawn, 5⟩, ⟨4, .withdrawn, 6⟩, ⟨6, .active, 7⟩] := by decide
+
+/-- The statement without the guard. -/
+def PipeBmp_C02_loss_full (v : Variant) : Prop :=
+  ∀ (K : Nat → Hdr → Key) (H : History), H.all (Ev.ok v.bmp) = true → ∀ (mc : Bool) (p : Rib.Prefix) (m : Mui),
+    (run v K H).rib.entry mc p m = (Rib.specRun v.rib mc p m (want K H)).entry
+
+/-- A second connection from the address of a router that is still connected (the same router key class, so the
+    same router id), a peer up on it, then the first connection is lost. -/
+def sharedH : History := [.connect 0, .msg 0 .init, .msg 0 (.peerUp 0 false true), .connect 0, .msg 1 .init,
+  .msg 1 (.peerUp 1 false true), .msg 1 (.routeMon 1 tok1 (ann24 7)), .disconnect 0]
+
+/-- **False without the guard — for every variant of the RIB** (C02's known finding "routers from one address share
+    the router id", seen at the RIB): the end of the first connection withdraws the route of the peer that is up
+    on the second. -/
+theorem PipeBmp_C02_loss_counterexample (v : Variant) : ¬ PipeBmp_C02_loss_full v := by
+  intro hf
+  have hok : sharedH.all (Ev.ok v.bmp) = true := by
+    have : ∀ vb : Bmp.Variant, sharedH.all (Ev.ok vb) = true := by
+      intro vb
+      obtain ⟨g, e⟩ := vb
+      cases g <;> cases e <;> decide
+    exact this v.bmp
+  have := hf (fun _ h => 100 + h) sharedH hok false p24 4
+  obtain ⟨⟨g, e⟩, ⟨o, r⟩⟩ := v
+  revert this
+  cases g <;> cases e <;> cases o <;> cases r <;> decide
+
+example : tidyFrom (fun _ h => 100 + h) Track.init sharedH = false := by decide
+
+/-- **C03 over BMP, a router that reconnects — the code as it is.** A peer (id `m`, registered under the router
+    id of connection `i`) is up when connection `i` is lost. Whatever happens then — the router reconnects, the
+    peer comes back on the new connection (under the same id: `PipeBmp_id_stable`) — the next announcement made
+    under id `m` is reported **withdrawn**. -/
+theorem PipeBmp_C03_reconnect_flap (v : Variant) (hv : v.rib.perRecordWithdraw = false)
+    (K : Nat → Hdr → Key) (H1 H2 H3 : History) (i j : Nat) (h : Hdr) (t : Bmp.Rm) (a : Rib.AttrId)
+    (ann wd : List Rib.Nlri) (mc : Bool) (p : Rib.Prefix) (m : Mui) (s0 s : TSess)
+    (hs0 : (Track.init.runFrom K H1).sess[i]? = some s0) (hl0 : s0.life ≠ .dead)
+    (hm : m ∈ idsForParent ((Track.init.runFrom K H1).rids.getD i 0) (Track.init.runFrom K H1).par)
+    (hok : (H1 ++ .disconnect i :: H2 ++ .msg j (.routeMon h t (.ok a ann wd)) :: H3).all (Ev.ok v.bmp) = true)
+    (hs : (Track.init.runFrom K (H1 ++ .disconnect i :: H2)).sess[j]? = some s) (hl : s.life = .live)
+    (hu : Bmp.lookupUp h s.up = some m)
+    (hd : deliverable t = true) (hA : (⟨p, Rib.safiOf mc⟩ : Rib.Nlri) ∈ ann) (hW : (⟨p, Rib.safiOf mc⟩ : Rib.Nlri) ∉ wd)
+    (h3u : (traceFrom K (Track.init.runFrom K (H1 ++ .disconnect i :: H2)) H3).all (fun e => !(e.touches mc p m)) = true) :
+    (run v K (H1 ++ .disconnect i :: H2 ++ .msg j (.routeMon h t (.ok a ann wd)) :: H3)).rib.entry mc p m
+      = some (.withdrawn, a) := by
+  have hok' : ((H1 ++ .disconnect i :: H2) ++ .msg j (.routeMon h t (.ok a ann wd)) :: H3).all (Ev.ok v.bmp) = true := by
+    simpa using hok
+  have := PipeBmp_C03_flap_exact v hv K (H1 ++ .disconnect i :: H2) H3 j h t a ann wd mc p m s hok' hs hl hu hd hA hW h3u
+  have hdown : (trace K (H1 ++ .disconnect i :: H2)).any (Rib.Ev.downs m) = true := by
+    rw [trace_split, step_evs_disconnect K _ i s0 hs0 hl0]
+    simp only [List.any_append, List.any_cons, Rib.Ev.downs, List.contains_eq_mem, hm, decide_true, Bool.true_or,
+      Bool.or_true]
+  have e : (H1 ++ Ev.disconnect i :: H2) ++ Ev.msg j (.routeMon h t (.ok a ann wd)) :: H3
+      = H1 ++ Ev.disconnect i :: H2 ++ Ev.msg j (.routeMon h t (.ok a ann wd)) :: H3 := by simp
+  rw [hdown, if_pos rfl, e] at this
+  exact this
+
+/-- **C03, repaired RIB** (`PipeBmp_C03_repaired`) covers reconnects as it is: it quantifies over every history. The
+    same id comes back after a reconnect: `PipeBmp_id_stable` (any `H2`, including `disconnect`, `connect`). -/
+example : (run ⟨Bmp.repaired, { overlapFix := true, perRecordWithdraw := true }⟩ lossK (lossH.take 17)).rib.query p24
+    = [⟨3, .active, 9⟩, ⟨4, .withdrawn, 6⟩, ⟨6, .active, 7⟩] ∧
+    (run ⟨Bmp.repaired, { overlapFix := true }⟩ lossK (lossH.take 17)).rib.query p24
+    = [⟨3, .withdrawn, 9⟩, ⟨4, .withdrawn, 6⟩, ⟨6, .active, 7⟩] := by decide
+
 end Rotonda.PipeBmp
